@@ -1,7 +1,8 @@
 (* Extraction of the regress-log model for the correspondence driver.
    ExtrOcamlBasic only; no Extract Constant; N/positive/nat stay Coq datatypes. *)
 From Coq Require Import Extraction ExtrOcamlBasic.
-From Robsd Require Import RegressLog.RLDefs RegressLog.RLSpec RegressLog.RLCallDefs.
+From Robsd Require Import RegressLog.RLDefs RegressLog.RLSpec RegressLog.RLCallDefs RegressLog.RLTrim RegressLog.RLOracles.
 Extraction Language OCaml.
 Extraction "rl_model.ml" main parse peek trim spec_main spec_ok_main spec_ok_peek
-  regress_failed step_exec_exit html_status hfailure.
+  regress_failed step_exec_exit html_status hfailure
+  trim_spec spec_ok_trim spec_ok_peek_exact failing_lineb spec_ok_step.
